@@ -671,6 +671,12 @@ func (e *Explorer) intrinsic(it *Interp, name string, args []Value) Value {
 		it.onDivLabel = args[0].(string)
 		it.onDivFinding = args[1].(string)
 		return nil
+	case "vnPar":
+		it.runPar(args[0], args[1], int(args[2].(int64)))
+		return nil
+	case "vnLocked":
+		it.callValue(args[0], nil)
+		return nil
 	case "vnConcurrently":
 		it.callValue(args[0], nil)
 		return nil
